@@ -82,6 +82,19 @@ def facts(read, die, define):
     else:
         die("C09: unrecognised ordering check in tsk_treeseq_check_windows")
     out.append("Definition C09_windows_reject_nan : bool := %s." % b(w_safe))
+    # N1: how Tree_get_node_argument parses the node id
+    tm = read("python/_tskitmodule.c")
+    body = _func_body(tm, "Tree_get_node_argument", die)
+    mm = re.search(r'PyArg_ParseTuple\(args,\s*"([^"]+)"', body)
+    if not mm:
+        die("C09: no PyArg_ParseTuple in Tree_get_node_argument")
+    if mm.group(1) == "I":
+        parse_checked = False
+    elif mm.group(1) in ("i", "O&"):
+        parse_checked = True
+    else:
+        die("C09: unrecognised id format %r in Tree_get_node_argument" % mm.group(1))
+    out.append("Definition C09_tree_id_parse_checked : bool := %s." % b(parse_checked))
     m = re.search(r"^#define\s+HARTIGAN_MAX_ALLELES\s+(\d+)", read("c/tskit/trees.c"), re.M)
     if not m:
         die("C09: HARTIGAN_MAX_ALLELES")
